@@ -23,6 +23,7 @@ import random
 import re
 import shutil
 import tempfile
+import threading
 import time
 from concurrent.futures import ThreadPoolExecutor
 
@@ -57,6 +58,38 @@ def _norm(out):
 
 def _pool(n=16):
     return mp.get_context("fork").Pool(min(n, os.cpu_count() or 4))
+
+
+class _Deferred:
+    """stands in for the Report and the Collector in the side thread: records the calls, replays them later"""
+
+    def __init__(self):
+        self.calls = []
+
+    def add(self, *a, **kw):
+        # Collector.add has positional arguments, Report.add only keywords
+        self.calls.append(("coll.add" if a else "report.add", a, kw))
+
+    def sample(self, *a, **kw):
+        self.calls.append(("report.sample", a, kw))
+
+    def note(self, *a, **kw):
+        self.calls.append(("report.note", a, kw))
+
+    def assume(self, *a, **kw):
+        self.calls.append(("report.assume", a, kw))
+
+    def log(self, *a, **kw):
+        self.calls.append(("log", a, kw))
+
+    def replay(self, report, coll, log):
+        for name, a, kw in self.calls:
+            if name == "log":
+                log(*a, **kw)
+            elif name == "coll.add":
+                coll.add(*a, **kw)
+            else:
+                getattr(report, name.split(".")[1])(*a, **kw)
 
 
 # ------------------------------------------------------------------------------------------ collector
@@ -141,9 +174,15 @@ def check_plan(plan):
 
 def expr_sig(c):
     causes = sorted(c["causes"])
+    bk = set(c.get("bk", ()))
     sig = {"layer": "expr"}
-    for k in ("overflow", "neglit", "signedsel", "cmpsign", "caselabel", "unexplained"):
+    for k in ("overflow", "neglit", "caselabel", "unexplained"):
         sig[k] = 1 if k in causes else 0
+    # where the back end's belief about signedness was wrong (hypothesis `belief`)
+    sig["signedsel"] = 1 if "sel" in bk else 0
+    sig["cmpsign"] = 1 if "cmp" in bk else 0
+    sig["shiftsign"] = 1 if "shift" in bk else 0
+    sig["belief_other"] = 1 if ("belief" in causes and not (bk & {"sel", "cmp", "shift"})) else 0
     sig.update(producer=c["producer"], consumer=c["consumer"], rel=c["rel"], mf=c["mf"])
     return sig
 
@@ -368,54 +407,64 @@ def _shape(s):
 
 
 # ------------------------------------------------------------------------------------------ layers 2 and 3 (T-mode)
-TRACE_CLAUSES = ["StepEq"]
+TRACE_CLAUSES = ["SingleDriver", "ImageLegal", "StepEq"]
 
 
-def judge_traces(traces, scratch, workers=8, timeout=1700, max_failures=6):
-    """VlogTrace.tla over recorded designs.  TLC stops at the first violated clause; that design is set aside and the
-    rest is validated again.  -> (failures [dict(idx, clause, step, diff)], stats)"""
-    slim = [{k: t[k] for k in ("D", "items", "ini", "ins", "cmp", "v0", "ev")} for t in traces]
-    live = list(range(len(traces)))
-    fails = []
-    st = {"states": 0, "transitions": 0, "wall": 0.0}
+def judge_traces(traces, scratch, workers=8, timeout=1700):
+    """VlogTrace.tla over recorded designs, every design as a plain chain (hyp 0) and, where it has port registers
+    with a non-zero FHDL reset value, a hypothesis chain (hyp 1).  A rejected chain stops, so -continue names each
+    rejected chain once.  -> (failures [dict(idx, clause, step, diff, cause)], stats)"""
+    slim = [{k: t[k] for k in ("D", "items", "ini", "pini", "ins", "cmp", "v0", "ev")} for t in traces]
     cfg = "INIT Init\nNEXT Next\nCHECK_DEADLOCK FALSE\nINVARIANT EnvLegal\n" + "".join("INVARIANT %s\n" % c for c in TRACE_CLAUSES)
-    while live:
-        path = os.path.join(scratch, "traces%d.json" % (time.time_ns() % 10**10))
-        with open(path, "w") as f:
-            json.dump([slim[i] for i in live], f, separators=(",", ":"))
-        try:
-            r = _tlc("vlog/VlogTrace", cfg, env={"TRACES": path}, workers=workers, timeout=timeout, heap="8g", scratch=scratch)
-        finally:
-            os.unlink(path)
-        st["wall"] += r.wall
-        if r.errors:
-            raise MachineryError("TLC failed on VlogTrace: %s\n%s" % (" | ".join(r.errors[:6]), r.out[-1500:]))
-        if r.violated:
-            last = r.trace[-1]["vars"] if r.trace else {}
-            tid = last.get("tid")
-            if not isinstance(tid, int):
-                raise MachineryError("VlogTrace: violation of %s without a parsable state" % r.violated)
-            real = live[tid - 1]
-            if r.violated == "EnvLegal":
-                raise MachineryError("recorded design %s is not a legal recording or its combinational logic does not "
-                                     "settle under VerilogSem (EnvLegal)" % traces[real].get("label"))
-            diff = {}
-            for d in tlc.print_lines(_norm(r.out), "DIFF"):
-                if d[1] == tid:
-                    diff = d[4] if isinstance(d[4], dict) else dict(d[4])
-                    break
-            fails.append({"idx": real, "clause": r.violated, "step": last.get("l", 1) - 1, "diff": diff})
-            live = [i for i in live if i != real]
-            if len(fails) >= max_failures:
-                break
-            continue
-        expect = sum(len(slim[i]["ev"]) + 1 for i in live)
-        if r.distinct != expect:
-            raise MachineryError("VlogTrace consumed %d states, expected %d (a trace stopped early)" % (r.distinct, expect))
-        st["states"] += r.distinct
-        st["transitions"] += r.generated
-        break
-    return fails, st
+    path = os.path.join(scratch, "traces%d.json" % (time.time_ns() % 10**10))
+    with open(path, "w") as f:
+        json.dump(slim, f, separators=(",", ":"))
+    try:
+        r = _tlc("vlog/VlogTrace", cfg, env={"TRACES": path}, workers=workers, timeout=timeout, heap="8g", scratch=scratch,
+                 extra=("-continue",))
+    finally:
+        os.unlink(path)
+    if r.errors:
+        raise MachineryError("TLC failed on VlogTrace: %s\n%s" % (" | ".join(r.errors[:6]), r.out[-1500:]))
+    if "Invariant EnvLegal is violated" in r.out:
+        raise MachineryError("a recorded design is not a legal recording or its combinational logic does not settle under "
+                             "VerilogSem (EnvLegal)\n" + r.out[-1200:])
+    rejected = {}
+    for d in tlc.print_lines(_norm(r.out), "DIFF"):
+        tid, hyp, step, diff = d[1], d[2], d[3], d[4]
+        rejected[(tid - 1, hyp)] = (step, diff if isinstance(diff, dict) else dict(diff))
+    nviol = len(re.findall(r"Invariant StepEq is violated", r.out))
+    if nviol != len(rejected):
+        raise MachineryError("VlogTrace: %d violations reported, %d rejected chains parsed" % (nviol, len(rejected)))
+    multi = {}
+    for d in tlc.print_lines(_norm(r.out), "MULTI"):
+        multi[d[1] - 1] = sorted(d[2])
+    if len(re.findall(r"Invariant SingleDriver is violated", r.out)) != len(multi):
+        raise MachineryError("VlogTrace: SingleDriver violations and witnesses differ")
+    expect = 0
+    for i, t in enumerate(slim):
+        for h in ((0, 1) if t["pini"] else (0,)):
+            expect += (rejected[(i, h)][0] + 1) if (i, h) in rejected else len(t["ev"]) + 1
+    if r.distinct != expect:
+        raise MachineryError("VlogTrace consumed %d states, expected %d (a chain stopped early)" % (r.distinct, expect))
+    fails = []
+    for d in tlc.print_lines(_norm(r.out), "IMAGE"):
+        fails.append({"idx": d[1] - 1, "clause": "ImageLegal", "step": 0, "cause": "-", "hyp1": None,
+                      "diff": {n: ("$readmemh image does not fit the memory", "-") for n in sorted(d[2])}})
+    if len(re.findall(r"Invariant ImageLegal is violated", r.out)) != len(fails):
+        raise MachineryError("VlogTrace: ImageLegal violations and witnesses differ")
+    for i, names in sorted(multi.items()):
+        fails.append({"idx": i, "clause": "SingleDriver", "step": 0, "diff": {n: ("driven by several processes", "-") for n in names},
+                      "cause": "multi-driver", "hyp1": None})
+    for (i, h), (step, diff) in sorted(rejected.items()):
+        if h == 0:
+            cause = "multi-driver" if i in multi else \
+                "port-reg-init" if (slim[i]["pini"] and (i, 1) not in rejected) else \
+                ("feat:" + traces[i]["memfeat"]) if traces[i].get("memfeat") else "-"
+            fails.append({"idx": i, "clause": "StepEq", "step": step, "diff": diff, "cause": cause,
+                          "hyp1": rejected.get((i, 1))})
+    return fails, {"states": r.distinct, "transitions": r.generated, "wall": r.wall,
+                   "hyp_chains": sum(1 for t in slim if t["pini"])}
 
 
 L2 = {"quick": {"fragments": 150, "cycles": 28}, "thorough": {"fragments": 3000, "cycles": 40}}
@@ -431,8 +480,14 @@ def report_trace_failures(report, coll, traces, fails, layer):
         t = traces[f["idx"]]
         names = sorted(f["diff"]) if isinstance(f["diff"], dict) else []
         shown = {n: {"verilog": f["diff"][n][0], "simulator": f["diff"][n][1]} for n in names[:6]}
-        sig = {"layer": layer, "clause": f["clause"], "design": t.get("label"), "regular_comb": t.get("regular_comb")}
-        sig.update(t.get("sigextra", {}))
+        if f["cause"] != "-":
+            sig = {"layer": layer, "clause": f["clause"], "cause": f["cause"]}
+            if f["cause"] == "multi-driver":
+                sig["regular_comb"] = t.get("regular_comb")
+        else:
+            sig = {"layer": layer, "clause": f["clause"], "cause": "-", "design": t.get("label"),
+                   "regular_comb": t.get("regular_comb")}
+            sig.update(t.get("sigextra", {}))
         replay = {"kind": "trace", "layer": layer, "factory": t.get("factory"), "clause": f["clause"], "step": f["step"],
                   "differs": shown, "verilog": _module_text(t.get("verilog", ""))}
         text = "%s: %s (regular_comb=%s): after tick %d the emitted Verilog and the simulator differ on %s" % (
@@ -443,7 +498,10 @@ def report_trace_failures(report, coll, traces, fails, layer):
 def layer2(report, tier, seed, scratch, coll, log=print):
     t0 = time.time()
     cfg = L2[tier]
-    jobs = [("%s-%d" % (seed, k), cfg["cycles"], k % 3 != 2) for k in range(cfg["fragments"])]
+    # two of three designs with regular_comb=True; with regular_comb=False concatenated comb targets only in one of four
+    # (they run into the multiple-driver finding at once and would leave the rest of that generator unexercised)
+    # Arrays over elements of both signednesses (a finding of their own) in one of ten designs
+    jobs = [("%s-%d" % (seed, k), cfg["cycles"], k % 3 != 2, k % 3 != 2 or k % 12 == 2, k % 10 == 7) for k in range(cfg["fragments"])]
     pool = _pool()
     try:
         traces = pool.map(fam.record_fragment, jobs, chunksize=4)
@@ -451,11 +509,14 @@ def layer2(report, tier, seed, scratch, coll, log=print):
         pool.terminate()
     skipped = [t for t in traces if "skip" in t]
     traces = [t for t in traces if "skip" not in t]
+    traces.append(fam.record_mixed_array_probe(seed))
     for t, in zip(traces):
-        t["factory"] = {"kind": "fragment", "seed": t["seed"], "cycles": cfg["cycles"], "regular_comb": t["regular_comb"]}
+        t["factory"] = {"kind": "fragment", "seed": t["seed"], "cycles": cfg["cycles"], "regular_comb": t["regular_comb"],
+                        "comb_cat": t["comb_cat"], "mixed_arr": t["mixed_arr"]}
         t["sigextra"] = {"seed": t["seed"]}
+    traces[-1]["factory"] = {"kind": "mixed-array-probe", "seed": seed}
     trec = time.time() - t0
-    fails, st = [], {"states": 0, "transitions": 0, "wall": 0.0}
+    fails, st = [], {"states": 0, "transitions": 0, "wall": 0.0, "hyp_chains": 0}
     B = 400
     for k in range(0, len(traces), B):
         f, s2 = judge_traces(traces[k:k + B], scratch)
@@ -465,7 +526,7 @@ def layer2(report, tier, seed, scratch, coll, log=print):
         for kk in st:
             st[kk] += s2[kk]
     report_trace_failures(report, coll, traces, fails, "proc")
-    ok = len(traces) - len(fails)
+    ok = len(traces) - len({f["idx"] for f in fails if f["cause"] == "-"})
     wit = {"two_clock_domains": sum(1 for t in traces if len(t["spec"]["dom"]) == 2),
            "with_reset": sum(1 for t in traces if any(d[1] for d in t["spec"]["dom"])),
            "regular_comb_false": sum(1 for t in traces if not t["regular_comb"]),
@@ -477,12 +538,98 @@ def layer2(report, tier, seed, scratch, coll, log=print):
             raise MachineryError("layer 2 witness %s is zero: the generated fragments do not exercise it" % k)
     report.add(states=st["states"], transitions=st["transitions"], traces_validated_against_impl=ok)
     report.add(layer2={"fragments": len(traces), "skipped": len(skipped), "cycles": cfg["cycles"], "ticks_validated": st["states"],
-                       "rejected": len(fails), "witnesses": wit, "record_wall_s": round(trec, 1), "tlc_wall_s": round(st["wall"], 1),
+                       "rejected": len([f for f in fails if f["cause"] == "-"]),
+                       "rejected_by_cause": {c: len([f for f in fails if f["cause"] == c and f["clause"] == "StepEq"])
+                                             for c in ("port-reg-init", "multi-driver")},
+                       "hypothesis_chains": st["hyp_chains"], "witnesses": wit, "record_wall_s": round(trec, 1), "tlc_wall_s": round(st["wall"], 1),
                        "wall_s": round(time.time() - t0, 1)})
     if traces:
         report.sample({"layer": 2, "fragment": traces[0]["seed"], "verilog": _module_text(traces[0]["verilog"])[:600]})
     log("layer 2: %d fragments (%d skipped), %d ticks validated, %d rejected, %.1fs" % (
         len(traces), len(skipped), st["states"], len(fails), time.time() - t0))
+
+
+L3 = {"quick": {"memories": 60, "mem_cycles": 48, "corpus": fam.QUICK_CORPUS, "cycles": 64, "seeds": 1, "both_modes": ("csr_bus.CSRBank", "EventManager")},
+      "thorough": {"memories": 800, "mem_cycles": 64, "corpus": None, "cycles": 256, "seeds": 2, "both_modes": None}}
+
+
+def layer3(report, tier, seed, scratch, coll, log=print):
+    t0 = time.time()
+    cfg = L3[tier]
+    names = cfg["corpus"] or sorted(fam.corpus())
+    mjobs = [("%s-m%d" % (seed, k), cfg["mem_cycles"]) for k in range(cfg["memories"])]
+    cjobs = []
+    for sd in range(cfg["seeds"]):
+        for n in names:
+            cjobs.append((n, "%s-%d" % (seed, sd), cfg["cycles"], True))
+            if cfg["both_modes"] is None or n in cfg["both_modes"]:
+                cjobs.append((n, "%s-%d" % (seed, sd), cfg["cycles"], False))
+    pool = _pool()
+    try:
+        mres = pool.map_async(fam.record_memory, mjobs, chunksize=4)
+        cres = pool.map_async(fam.record_corpus, cjobs, chunksize=1)
+        probe = pool.apply_async(fam.record_memory_reset_probe, (seed,))
+        mtr, ctr, ptr = mres.get(), cres.get(), probe.get()
+    finally:
+        pool.terminate()
+    skipped = [t for t in mtr + ctr if "skip" in t]
+    mtr = [t for t in mtr if "skip" not in t]
+    ctr = [t for t in ctr if "skip" not in t]
+    for t in mtr:
+        t["factory"] = {"kind": "memory", "seed": t["seed"], "cycles": cfg["mem_cycles"]}
+        t["sigextra"] = {"seed": t["seed"]}
+    for t in ctr:
+        t["factory"] = {"kind": "corpus", "name": t["name"], "seed": t["seed"], "cycles": cfg["cycles"], "regular_comb": t["regular_comb"]}
+        t["sigextra"] = {"seed": t["seed"]}
+    ptr["factory"] = {"kind": "memory-reset-probe", "seed": seed}
+    trec = time.time() - t0
+    with ThreadPoolExecutor(max_workers=3) as ex:
+        fm = ex.submit(judge_traces, mtr + [ptr], scratch, 6)
+        fc = [ex.submit(judge_traces, ctr[k::2], scratch, 5) for k in range(2)]
+        mf, mst = fm.result()
+        cparts = [f.result() for f in fc]
+    report_trace_failures(report, coll, mtr + [ptr], mf, "mem")
+    cst = {"states": 0, "transitions": 0, "wall": 0.0}
+    cfails = 0
+    for k, (f, st) in enumerate(cparts):
+        report_trace_failures(report, coll, ctr[k::2], f, "corpus")
+        cfails += len({x["idx"] for x in f})
+        for kk in cst:
+            cst[kk] += st[kk]
+    wit = {"write_first": 0, "read_first": 0, "no_change": 0, "async_read": 0, "read_enable": 0, "granular_we": 0, "short_init": 0,
+           "no_init": 0, "two_ports": 0, "two_clocks": 0, "memory_words_written": 0}
+    for t in mtr:
+        sp = t["spec"]
+        for p in sp["ports"]:
+            wit[{"wf": "write_first", "rf": "read_first", "nc": "no_change"}[p["mode"]]] += 1
+            wit["async_read"] += p["async"]
+            wit["read_enable"] += p["re"]
+            wit["granular_we"] += 1 if p["gran"] else 0
+        wit["short_init"] += 1 if sp["init"] is not None and len(sp["init"]) < sp["d"] else 0
+        wit["no_init"] += 1 if sp["init"] is None else 0
+        wit["two_ports"] += 1 if len(sp["ports"]) == 2 else 0
+        wit["two_clocks"] += sp["two_clocks"]
+        wit["memory_words_written"] += sum(len(v) for e in t["ev"] for v in e["m"].values())
+    for k, v in wit.items():
+        if v == 0 and cfg["memories"] >= 40:
+            raise MachineryError("layer 3 witness %s is zero: the generated memories do not exercise it" % k)
+    report.add(states=mst["states"] + cst["states"], transitions=mst["transitions"] + cst["transitions"],
+               traces_validated_against_impl=len(mtr) + len(ctr) + 1 - len({x["idx"] for x in mf}) - cfails)
+    report.add(layer3={"memory_designs": len(mtr), "memory_ticks_validated": mst["states"], "memory_witnesses": wit,
+                       "memory_designs_rejected": len({x["idx"] for x in mf}),
+                       "corpus": sorted({t["name"] for t in ctr}), "corpus_traces": len(ctr), "corpus_cycles": cfg["cycles"],
+                       "corpus_ticks_validated": cst["states"], "corpus_traces_rejected": cfails,
+                       "corpus_names_compared": {t["name"]: len(t["cmp"]) for t in ctr},
+                       "skipped": [(t.get("label"), t["skip"]) for t in skipped][:10],
+                       "record_wall_s": round(trec, 1), "tlc_wall_s": round(mst["wall"] + cst["wall"], 1),
+                       "wall_s": round(time.time() - t0, 1)})
+    report.note("observed, not a verdict: convert() raises TypeError (memory.py: `if (!we)` with we = None) for a read-only port in "
+                "NO_CHANGE mode, which the simulator accepts; such ports are not generated")
+    if ctr:
+        report.sample({"layer": 3, "core": ctr[0]["name"], "names_compared": ctr[0]["cmp"][:12], "ticks": len(ctr[0]["ev"])})
+    log("layer 3: %d memory designs (%d ticks), %d corpus traces of %d cores (%d ticks), %d + %d rejected, %.1fs" % (
+        len(mtr), mst["states"], len(ctr), len({t["name"] for t in ctr}), cst["states"], len({x["idx"] for x in mf}), cfails,
+        time.time() - t0))
 
 
 # ------------------------------------------------------------------------------------------ entry points
@@ -497,10 +644,30 @@ def run(prop, report, tier, seed, log=print):
                       "unsigned-typed expressions")
         coll = Collector(report)
         which = os.environ.get("VERIF_C01_LAYERS", "123")
-        if "1" in which:
-            layer1(report, tier, seed, scratch, coll, log)
-        if "2" in which:
-            layer2(report, tier, seed, scratch, coll, log)
+        # layers 2 and 3 run beside layer 1 (whose TLC processes are single threaded); what they report is replayed
+        # into the report afterwards, in a fixed order
+        side = _Deferred()
+        err = []
+
+        def others():
+            try:
+                if "2" in which:
+                    layer2(side, tier, seed, scratch, side, side.log)
+                if "3" in which:
+                    layer3(side, tier, seed, scratch, side, side.log)
+            except BaseException as ex:          # re-raised in the main thread
+                err.append(ex)
+
+        th = threading.Thread(target=others)
+        th.start()
+        try:
+            if "1" in which:
+                layer1(report, tier, seed, scratch, coll, log)
+        finally:
+            th.join()
+        if err:
+            raise err[0]
+        side.replay(report, coll, log)
         coll.flush()
     finally:
         shutil.rmtree(scratch, ignore_errors=True)
@@ -523,6 +690,25 @@ def replay(path):
                     fails.append({"clause": "ExprEquivalent", "signature": expr_sig(c)})
             ok = any(f["signature"] == want for f in fails)
             return ok, fails
+        if r["kind"] == "trace":
+            fa = r["factory"]
+            if fa["kind"] == "mixed-array-probe":
+                t = fam.record_mixed_array_probe(fa["seed"])
+            elif fa["kind"] == "fragment":
+                t = fam.record_fragment((fa["seed"], fa["cycles"], fa["regular_comb"], fa.get("comb_cat", True), fa.get("mixed_arr", False)))
+            elif fa["kind"] == "memory":
+                t = fam.record_memory((fa["seed"], fa["cycles"]))
+            elif fa["kind"] == "corpus":
+                t = fam.record_corpus((fa["name"], fa["seed"], fa["cycles"], fa["regular_comb"]))
+            elif fa["kind"] == "memory-reset-probe":
+                t = fam.record_memory_reset_probe(fa["seed"])
+            else:
+                raise MachineryError("unknown design factory %r" % fa)
+            if "skip" in t:
+                return False, [{"clause": "design no longer convertible: %s" % t["skip"]}]
+            fails, _ = judge_traces([t], scratch, workers=2)
+            ok = any(f["clause"] == r["clause"] for f in fails)
+            return ok, [{"clause": f["clause"], "step": f["step"], "cause": f["cause"]} for f in fails]
         raise MachineryError("unknown replay kind %r" % r.get("kind"))
     finally:
         shutil.rmtree(scratch, ignore_errors=True)
